@@ -14,6 +14,7 @@ run_bldfm_parallel 'time' and 'both' through an in-process executor)."""
 import itertools
 import os
 
+from vf import bigcases
 from vf import core
 from vf import driverfail
 from vf.oracles import metseries
@@ -64,9 +65,10 @@ def build_met(case, seed):
             continue
         if case["pat"][k]:
             n = L - 1 if case["short"] == k else L
-            met[f] = [round(base[f] + (0 if case.get("constant") else i) * step[f], 6) for i in range(n)]
+            # full-precision values (not short decimals): step i must be the entry itself, not a rounded or re-parsed copy
+            met[f] = [base[f] + (0 if case.get("constant") else i) * step[f] * (1.0 + 1.0 / 7.0) for i in range(n)]
         else:
-            met[f] = round(base[f], 6)
+            met[f] = base[f] / 3.0 * 3.0000000001
     if case["forcing"] in ("z0", "both"):
         met["z0"] = 0.07
     n_nom = L if any(case["pat"]) else 1
@@ -336,6 +338,8 @@ def run(ctx):
     histories.run(ctx, __name__, 2 if ctx.tier == "quick" else 3)
     yh = [{"ops": list(h)} for d in (2, 3) for h in itertools.product(range(len(YAML_METS)), repeat=d)]
     ctx.run_cases(case_yaml_history, yh, sub="yaml-file-histories")
+    bigcases.run(ctx, "C16")
+
 
 MANIFEST = {
     "technique": "bounded-exhaustive enumeration of the complete forcing lattice against a list reference model, with step indices observed at every consumer",
